@@ -518,11 +518,13 @@ def likeMatchF : Nat → List Char → List Char → Bool
 
 def likeMatch (s p : List Char) : Bool := likeMatchF (s.length + p.length + 1) s p
 
-/-- `hashtext(s)`: an opaque injective tag in the model (the real function is a
-    32-bit hash; only equality of lock keys matters to the ledger). Modelled as
-    the bytes of the string read as a base-256 number, which is injective. -/
+/-- `hashtext(s)`: the real function is a 32-bit hash (`int4`); only equality of
+    lock keys matters to the ledger. Modelled as the bytes of the string read as a
+    base-256 number reduced modulo the prime 2^31 - 1, so the result is an `int4`
+    like PostgreSQL's (a collision only makes two advisory locks coincide, which
+    PostgreSQL's hash allows as well). -/
 def hashtext (s : String) : Int :=
-  s.toUTF8.foldl (fun acc b => acc * 256 + (b.toNat + 1 : Nat)) (0 : Nat)
+  (s.toUTF8.foldl (fun acc b => (acc * 256 + (b.toNat + 1 : Nat)) % 2147483647) (0 : Nat) : Nat)
 
 /-- strip the quoting of a regclass/sequence name argument: `"a"."b"` → `a.b` -/
 def unquoteQualified (s : String) : String :=
